@@ -585,8 +585,27 @@ class Body:
 
     def call_term(self, t, at=None):
         name = callee_name(t)
+        if name.endswith('box_assume_init_into_vec_unsafe') and at is not None:
+            v = self._vec_literal(at[0])
+            if v is not None:
+                return v
         args = tuple(self.op_term(a, at) for a in t['args'])
         return ('call', name) + args
+
+    def _vec_literal(self, call_bb):
+        """`vec![a, b, ..]` lowers to Box::new_uninit + a raw-pointer store of the array + box_assume_init_into_vec_unsafe:
+        recover ('agg', 'vec', a, b, ..) from the dominating array store."""
+        best = None
+        for i, j, st in self.stmts():
+            lhs = st['lhs']
+            if lhs['proj'] and lhs['proj'][0]['k'] == 'deref' and st['rv']['k'] == 'agg' and str(st['rv']['kind'].get('other', '')).startswith('Array') \
+                    and any(e.get('name') == 'value' for e in lhs['proj']) and (i == call_bb or self.dominates(i, call_bb)):
+                if best is None or self.dominates(best[0], i):
+                    best = (i, j, st)
+        if best is None:
+            return None
+        i, j, st = best
+        return ('agg', 'vec') + tuple(self.op_term(o, (i, j)) for o in st['rv']['ops'])
 
     def return_term(self):
         return self.term_local(0)
